@@ -682,9 +682,20 @@ class Builder:
                 return self.ev(e.body, env, ctx)
             return self.ev(e.orelse, env, ctx)
         if isinstance(e, ast.JoinedStr):
-            return ("const", "<fstring>")
+            # an f-string is the ordered sequence of its literal pieces and formatted values (messages of raise / assert never get here)
+            try:
+                parts = tuple(self.ev(v, env, ctx) for v in e.values)
+            except AnalysisError:
+                return ("const", "<fstring>")
+            if all(p_[0] == "const" and isinstance(p_[1], str) for p_ in parts):
+                return ("const", "".join(p_[1] for p_ in parts))
+            return ("call", ("global", "<fstring>"), parts, ())
         if isinstance(e, ast.FormattedValue):
-            return ("const", "<fstring>")
+            v = self.ev(e.value, env, ctx)
+            if e.conversion == -1 and e.format_spec is None:
+                return ("call", ("global", "<format>"), (v,), ())
+            spec = self.ev(e.format_spec, env, ctx) if e.format_spec is not None else NONE
+            return ("call", ("global", "<format>"), (v, ("const", e.conversion), spec), ())
         if isinstance(e, ast.Starred):
             return ("star", self.ev(e.value, env, ctx))
         if isinstance(e, (ast.ListComp, ast.GeneratorExp, ast.SetComp, ast.DictComp)):
